@@ -21,6 +21,26 @@ static A: Counting = Counting;
 
 fn main() {
 	let args: Vec<String> = std::env::args().collect();
+	if args[1] == "--mt" {
+		// --mt entry|tag:val,..|breakpoint  entry|..|..   : multi-thread replay of a deadlock candidate
+		let mut specs = vec![];
+		for a in &args[2..] {
+			let parts: Vec<&str> = a.split('|').collect();
+			let f = vh::find_entry(parts[0]).expect("entry");
+			let mut inputs: Vec<(u32, u8)> = vec![];
+			if !parts[1].is_empty() {
+				for p in parts[1].split(',') {
+					let (t, v) = p.split_once(':').expect("tag:value");
+					inputs.push((t.parse().expect("tag"), v.parse().expect("value")));
+				}
+			}
+			specs.push((f, inputs, parts[2].parse::<i32>().expect("breakpoint")));
+		}
+		std::panic::set_hook(Box::new(|_| {}));
+		let dead = vh::env::eng::mt::run(specs);
+		println!("MT-OUTCOME {}", if dead { "deadlock" } else { "completed" });
+		std::process::exit(0);
+	}
 	let entry = args[1].clone();
 	let mut inputs: Vec<(u32, u8)> = vec![];
 	if args.len() > 2 && !args[2].is_empty() {
